@@ -476,6 +476,25 @@ func parkedScenario() *mc.Scenario {
 				dr = nil
 			}
 		}
+		// one more call while a terminal call is queued: it takes effect only after that call
+		// (whoever holds the stream's state decides first); judged by the outcome after the release
+		var x2 refstream.Op = "none"
+		var x2r *callRes
+		if dr != nil && (d == refstream.CloseSend || d == refstream.Close || d == refstream.SendError) {
+			x2 = parkedX[sched.Choose(len(parkedX), "X2")]
+			switch x2 {
+			case "none":
+			case refstream.SendCancel:
+				r := start(x2)
+				if !r.returned || !r.flag || r.err != nil {
+					fail("SendCancel while a terminal call is queued: returned=%v busy=%v err=%v, want busy", r.returned, r.flag, r.err)
+					return
+				}
+				x2 = "none"
+			default:
+				x2r = start(x2)
+			}
+		}
 		// release: the parked call completes first
 		w.mon.Do("release", nil, func() { w.stalled = false })
 		rn.trace = append(rn.trace, "<release>")
@@ -522,6 +541,17 @@ func parkedScenario() *mc.Scenario {
 				fail("%s never returned after the release", d)
 			} else if !classOK(dpred.Returned[0].Class, dr) {
 				fail("%s returned err=%v after the release, the state machine says %s", d, dr.err, dpred.Returned[0].Class)
+			}
+		}
+		if x2r != nil {
+			xpred := m.Step(x2)
+			if !x2r.returned {
+				fail("%s never returned after the release", x2)
+			} else if (x2 == refstream.PInvoke && drpc.ProtocolError.Has(x2r.err)) || (x2 == refstream.PUnk && drpc.InternalError.Has(x2r.err)) {
+				// the packet was handed over before the termination and judged after it: reporting it
+				// as the protocol violation it is (without any further effect) is within the statement
+			} else if len(xpred.Returned) != 1 || !classOK(xpred.Returned[0].Class, x2r) {
+				fail("%s (issued while %s was queued) returned err=%v flag=%v, the state machine says %v", x2, d, x2r.err, x2r.flag, xpred.Returned)
 			}
 		}
 		signals()
